@@ -64,6 +64,18 @@ CLAIMED["C13"] = dict(
         "oracle written from the property text runs on every case.",
    note=TB + "sqlglot's parser decides what the statements of a text are and which tables a query reads; the content of library-produced results is not compared here. Defect D13b found and fixed while building this check.",
    design="DESIGN.md section 4, C13")
+CLAIMED["C14"] = dict(
+   technique="Lean 4 proof (finite-map refinement of the variable store; lock-step induction over SET_VAR assignment / restore lists; well-typedness invariant; kernel-evaluated facts about the extracted schema) + extracted schema / charsets / middleware shape + differential execution of SET / hint programs with the full listing compared after every statement",
+   text="Theorems in lean/MimicProps/C14.lean, for every schema and charset list with self-accepting defaults (proved of the extracted ones by kernel evaluation): "
+        "get_after_set, set_frame, default_restores, null_restores, unknown_is_error, list_complete_sorted; readonly_immutable (no SET statement in any spelling "
+        "changes a non-dynamic variable); hinted_restores (for every hint list - duplicates, unknown and read-only names, wrong-typed values - and every body, "
+        "succeeding or raising, every variable reads the same after the statement as before; the restore loop's exception precedence is modelled); "
+        "well-typedness is preserved by every client operation, hence accepted_timezone_usable / accepted_charset_usable. Tie: extraction + programs of SET "
+        "statements in every spelling, reads and hinted statements over every variable with right- and wrong-typed values against a real connection; after "
+        "every statement the full SHOW VARIABLES listing equals the model's store, NOW()/CURDATE()/CURTIME() are shifted by the model's offset (systematic sweep "
+        "of time-zone spellings), the handshake announces the version variable.",
+   note=TB + "Python's int()/str() on floats is supplied by the harness; strings for int variables are ASCII without underscores; utf16/utf32/ucs2 as client character set are exercised by C15, not here. Defect D13c (first middleware ran twice) found and fixed while building this check.",
+   design="DESIGN.md section 4, C14")
 CLAIMED["C05"] = dict(
    technique="Lean 4 proof (round-trip theorems for NULL bitmap, binary rows of all encoder classes, text framing, decimal text, durations; row-preservation of inference) + extracted encoder tables + byte-for-byte differential execution",
    text="Theorems in lean/MimicProps/C05.lean: NULL-bitmap round trip for every size/offset/pattern; binary rows of well-formed values of every supported "
